@@ -92,6 +92,14 @@ def gen_config(rng, prop):
     for i, c in enumerate(comps):
         if len(comps) > 1 and rng.random() < 0.4:
             c["inject_comp"] = rng.choice([o["name"] for o in comps if o is not c])
+    if len(comps) >= 2 and rng.random() < 0.3:
+        # two components of the identical class (left/right flywheel): same declarations, separate instances
+        i = rng.randint(1, len(comps) - 1)
+        j = rng.randint(0, i - 1)
+        for o in comps:
+            if o.get("inject_comp") == comps[i]["name"]:
+                o["inject_comp"] = None
+        comps[i] = dict(comps[j], name=comps[i]["name"], clone_of=comps[j]["name"], in_base_robot=comps[i]["in_base_robot"])
     split = len(comps) >= 2 and rng.random() < 0.4
     if split:
         k = rng.randint(1, len(comps) - 1)
@@ -121,8 +129,8 @@ def gen_config(rng, prop):
 def _gen_fb(rng, j, owner="comp"):
     hint = rng.choice(["int", "float", "bool", "str", "floats", "ints", "strs", "bools", "rot", "trs", None, None])
     name = rng.choice([f"get_v{j}", f"v{j}", f"get_state{j}", f"is_ok{j}"])
-    fb = {"name": name, "key": (rng.choice([f"k{j}", f"sub/key{j}", "Name With Space" + str(j)]) if rng.random() < 0.3 else None), "hint": hint,
-          "inplace": False, "constant": rng.random() < 0.25}
+    fb = {"name": name, "key": (rng.choice([f"k{j}", f"sub/key{j}", "Name With Space" + str(j), f"get_k{j}", f"get_{name}"]) if rng.random() < 0.35 else None), "hint": hint,
+          "inplace": False, "constant": rng.random() < 0.25, "quoted_hint": rng.random() < 0.25}
     if hint is None:
         t, vals = rng.choice(UNTYPED_POOLS)
         fb["nt_type"], fb["values"] = t, list(vals)
@@ -441,6 +449,11 @@ def generate(seed, prop, tier, index=0):
         if sites["fb"] and (cfg["fms"] or rng.random() < 0.2):
             for _ in range(rng.choice([0, 1, 2])):
                 add(rng.choice(sites["fb"]), rng.choice([1, 2, rng.randint(1, 10), "*"]), ["raise"])
+        if cfg["fms"] and rng.random() < 0.3:
+            # other callbacks of the iteration raise (swallowed): every getter is still called exactly once
+            other = sites["execute"] + sites["periodic"] + [x for x in sites["mode"] if x.endswith("on_iteration")]
+            for _ in range(rng.choice([1, 2])):
+                add(rng.choice(other), rng.choice([1, 2, rng.randint(1, 10), "*"]), ["raise"])
     return {"engine": ENGINE, "property": prop, "seed": seed, "config": cfg, "ops": ops}
 
 
@@ -477,13 +490,16 @@ def build_sources(cfg):
     L = ["import magicbot", "from magicbot import will_reset_to, feedback, tunable, state, timed_state, default_state", "from collections.abc import Sequence",
          "from wpimath.geometry import Rotation2d, Translation2d", "",
          "class Dep:", "    pass", ""]
+    cls_of = {c["name"]: (c.get("clone_of") or c["name"]).upper() for c in cfg["components"]}
     for c in cfg["components"]:
         nm = c["name"]
+        if c.get("clone_of"):
+            continue
         if c.get("machine"):
             L.append(f"class {nm.upper()}(magicbot.StateMachine):")
             if c["inject_dep"]:
                 L.append("    dep0: Dep")
-            L += ["    def __init__(self):", f"        SIM.cb('{nm}.ctor')"]
+            L += ["    def __init__(self):", f"        SIM.ctor(self, '{nm.upper()}')"]
             for h in ("setup", "on_enable"):
                 if h in c["hooks"]:
                     L += [f"    def {h}(self):", f"        SIM.cb('{nm}.{h}')"] + (["        super().on_enable()"] if h == "on_enable" else [])
@@ -511,21 +527,21 @@ def build_sources(cfg):
         if c["inject_dep"]:
             L.append("    dep0: Dep")
         if c["inject_comp"]:
-            L.append(f"    {c['inject_comp']}: '{c['inject_comp'].upper()}'")
+            L.append(f"    {c['inject_comp']}: '{cls_of[c['inject_comp']]}'")
         for r in own:
             L.append(f"    {r['attr']} = will_reset_to({_lit(r['default'])})")
         for a in c["plain_attrs"]:
             L.append(f"    {a['attr']} = {_lit(a['default'])}")
         L.append("    def __init__(self):")
-        L.append(f"        SIM.cb('{nm}.ctor')")
+        L.append(f"        SIM.ctor(self, '{nm.upper()}')")
         for h in ("setup", "on_enable", "on_disable"):
             if h in c["hooks"]:
                 L.append(f"    def {h}(self):")
-                L.append(f"        SIM.cb('{nm}.{h}')")
+                L.append(f"        SIM.cb(SIM.nm(self) + '.{h}')")
         L.append("    def execute(self):")
-        L.append(f"        SIM.cb('{nm}.execute')")
+        L.append("        SIM.cb(SIM.nm(self) + '.execute')")
         for fb in c["feedbacks"]:
-            L += _fb_source(nm, fb)
+            L += _fb_source(None, fb)
         L.append("")
     robot_lines = []
     base_comps = [c for c in cfg["components"] if c["in_base_robot"]]
@@ -533,7 +549,7 @@ def build_sources(cfg):
     if cfg["split_robot"]:
         L.append("class BaseRobot(magicbot.MagicRobot):")
         for c in base_comps:
-            L.append(f"    {c['name']}: {c['name'].upper()}")
+            L.append(f"    {c['name']}: {cls_of[c['name']]}")
         L.append("    def createObjects(self):")
         L.append("        self.dep0 = Dep()")
         L.append("")
@@ -541,7 +557,7 @@ def build_sources(cfg):
     else:
         L.append("class Robot(magicbot.MagicRobot):")
     for c in leaf_comps:
-        L.append(f"    {c['name']}: {c['name'].upper()}")
+        L.append(f"    {c['name']}: {cls_of[c['name']]}")
     L.append(f"    control_loop_wait_time = {cfg['period']!r}")
     L.append(f"    use_teleop_in_autonomous = {bool(cfg['use_teleop_in_auto'])}")
     if not cfg["split_robot"]:
@@ -593,11 +609,17 @@ def _fb_source(owner, fb):
     out = []
     deco = "@feedback" if not fb.get("key") else f"@feedback(key={fb['key']!r})"
     hint = HINTS[fb["hint"]][0]
+    if hint and fb.get("quoted_hint"):
+        hint = repr(hint)          # a string annotation (as under `from __future__ import annotations`)
     ann = f" -> {hint}" if hint else ""
     out.append(f"    {deco}")
     out.append(f"    def {fb['name']}(self){ann}:")
-    out.append(f"        n = SIM.cb('{owner}.fb.{fb['name']}')")
-    out.append(f"        return SIM.fbval('{owner}.fb.{fb['name']}', n)")
+    if owner is None:
+        out.append(f"        site = SIM.nm(self) + '.fb.{fb['name']}'")
+    else:
+        out.append(f"        site = '{owner}.fb.{fb['name']}'")
+    out.append("        n = SIM.cb(site)")
+    out.append("        return SIM.fbval(site, n)")
     return out
 
 
@@ -606,6 +628,14 @@ def normalise(cfg):
     cfg = dict(cfg)
     comps = [dict(c) for c in cfg["components"]]
     names = {c["name"] for c in comps}
+    byname = {c["name"]: c for c in comps}
+    for c in comps:
+        if c.get("clone_of") and (c["clone_of"] not in names or byname[c["clone_of"]].get("clone_of") or byname[c["clone_of"]].get("machine")):
+            c["clone_of"] = None
+        if c.get("clone_of"):
+            o = byname[c["clone_of"]]
+            for k in ("hooks", "resets", "plain_attrs", "feedbacks", "inject_dep", "inject_comp"):
+                c[k] = o[k]
     for c in comps:
         if not cfg.get("split_robot"):
             c["in_base_robot"] = False
@@ -635,6 +665,10 @@ class _Sim:
             for fb in fbs:
                 self.fbvals[f"{owner}.fb.{fb['name']}"] = fb
         self.keys = sorted((c["name"], a["attr"]) for c in cfg["components"] for a in (c["resets"] + c["plain_attrs"]))
+        self.names, self.ctor_count, self.objs = {}, {}, []
+        # declaration order as the framework sees it: base-class robot annotations first
+        from models.robot_model import declared_order
+        self.order = declared_order(cfg)
         self.threaded = False
         self.at_wait = None
         self.resumed = None
@@ -751,6 +785,19 @@ class _Sim:
             elif k == "raise" and not at_wait:
                 do_raise = True
         return do_raise
+
+    def ctor(self, obj, clsname):
+        """k-th construction of a class = k-th declared component of that class (creation follows declaration order)"""
+        members = [c["name"] for c in self.order if (c.get("clone_of") or c["name"]).upper() == clsname]
+        k = self.ctor_count.get(clsname, 0)
+        self.ctor_count[clsname] = k + 1
+        name = members[k] if k < len(members) else f"{clsname}#{k}"
+        self.names[id(obj)] = name
+        self.objs.append(obj)
+        return self.cb(name + ".ctor")
+
+    def nm(self, obj):
+        return self.names.get(id(obj), "<unknown component>")
 
     def note(self, site, extra=None):
         if self.aborted:
